@@ -176,7 +176,7 @@ class Dataset:
         for ranking in rankings:
             for bucket in ranking:
                 for element in bucket:
-                    if isinstance(element, str) and not element.isdigit():
+                    if isinstance(element, str) and not element.isdecimal():
                         return False
                     if isinstance(element, Element) and not element.can_be_int():
                         return False
